@@ -107,6 +107,7 @@ type VerifAcctView struct {
 	Registered bool // uploadBytes and downloadBytes are set
 	QueueLens  []int
 	UnreadLen  int
+	SendQueue  int // segments waiting in sendQueue
 }
 
 // VerifAcctView must not be called concurrently with Read.
@@ -117,6 +118,7 @@ func (s *Session) VerifAcctView() VerifAcctView {
 		Closed:     s.closeRequested.Load(),
 		Registered: s.uploadBytes != nil && s.downloadBytes != nil,
 		UnreadLen:  len(s.unreadBuf),
+		SendQueue:  s.sendQueue.Len(),
 	}
 	s.oLock.Lock()
 	v.Status = uint8(s.status)
